@@ -150,6 +150,8 @@ Cons(m, g, ev) ==
     [] m = "C02_debit"  ->
          \A a \in Decreased(g, ev) :
             \/ o.op \in {"transfer", "burn"} /\ a = o.from /\ o.from \in o.auth
+            \* a holder acting as his own spender authorizes the debit himself
+            \/ o.op \in Spends /\ a = o.from /\ o.sp = o.from /\ o.from \in o.auth
             \/ /\ o.op \in Spends /\ a = o.from /\ o.sp \in o.auth
                /\ AllowVal(g, o.from, o.sp, now) >= o.amt
                /\ obs.al[o.from][o.sp] = AllowVal(g, o.from, o.sp, now) - o.amt
